@@ -354,7 +354,7 @@ def run_check(tier, seed, nworkers=None, nruns=None, budget_s=None, evidence_pat
         extra = {}
         idx = n
         for k in chosen:
-            ent = [("soak", k, False), ("soak", k, False),
+            ent = [("soak", k, True), ("soak", k, False),
                    ("samekind", k, False), ("samekind", k, False), ("samekind", k, True),
                    ("firstuse", k, True), ("firstuse", k, True), ("firstuse", k, True),
                    ("pairkind", k, False), ("pairkind", k, False), ("pairkind", k, True)]
